@@ -29,7 +29,17 @@ impl<'a> Model<'a> {
         }
 
         // n * (n-1) * ... * (n-k+1)
-        let result = ((n - k + 1)..=n).map(|i| i as f64).product::<f64>();
+        let mut result: f64 = 1.0;
+        for i in (n - k + 1)..=n {
+            result *= i as f64;
+            if result.is_infinite() {
+                return CalcResult::new_error(
+                    Error::NUM,
+                    cell,
+                    "PERMUT: the result is too large".to_string(),
+                );
+            }
+        }
         CalcResult::Number(result)
     }
 
